@@ -39,6 +39,8 @@ class Contract:
         self.post = getattr(impl, "post", None)
         self.raises: Dict[str, Callable] = dict(getattr(impl, "raises", {}) or {})
         self.may_raise: List[str] = list(getattr(impl, "may_raise", []) or [])
+        # one-sided exceptional postconditions: `raise X` implies cond_X (nothing is claimed on a normal return)
+        self.raises_implies: Dict[str, Callable] = dict(getattr(impl, "raises_implies", {}) or {})
         self.modifies: List[str] = list(getattr(impl, "modifies", []) or [])
         self.establishes = getattr(impl, "establishes", None)  # for __init__: class whose spec is established
         self.self_kind = getattr(impl, "self_kind", None)
@@ -78,6 +80,9 @@ class ClassSpec:
         self.whole_object: List[str] = list(getattr(impl, "whole_object", []) or [])
         self.props: Dict[str, Any] = dict(getattr(impl, "props", {}) or {})  # abstract property kinds (interfaces)
         self.eq = getattr(impl, "eq", None)  # interface contract of `==` between instances: eq(a, b) -> clause
+        # a mutable builder-like class: fresh immutable objects handed to its methods are published (their fields become
+        # facts about the field functions of their reference) because they may be stored in its symbolic lists
+        self.owns_state: bool = bool(getattr(impl, "owns_state", False))
 
 
 class Registry:
